@@ -72,19 +72,19 @@ func PosBytes(r, n int) []byte {
 }
 
 // DecodePos returns (tag, record). Anything unparsable decodes to a value no engine ack can
-// have (tag 9999), so that the model rejects it instead of the harness guessing.
+// have (tag 4095), so that the model rejects it instead of the harness guessing.
 func DecodePos(b []byte) (int, int) {
 	if len(b) == 0 {
 		return 0, 0
 	}
 	parts := strings.Split(string(b), ".")
 	if len(parts) != 2 {
-		return 9999, 0
+		return 4095, 0
 	}
 	r, e1 := strconv.Atoi(parts[0])
 	n, e2 := strconv.Atoi(parts[1])
-	if e1 != nil || e2 != nil || r < 0 || n < 0 || r > 5000 || n > 5000 {
-		return 9999, 0
+	if e1 != nil || e2 != nil || r < 0 || n < 0 || r > 4000 || n > 4000 {
+		return 4095, 0
 	}
 	return n, r
 }
@@ -126,11 +126,11 @@ func CoqEvent(e Event) (string, bool) {
 	case "tdcancel":
 		return fmt.Sprintf("ETdCancel %d", e.S), true
 	case "tdend":
-		return fmt.Sprintf("ETdEnd %d", e.S), true
+		return fmt.Sprintf("ETdEnd %d %s", e.S, hx.Bool(e.Ok)), true
 	case "hang", "ackerr", "panic":
 		// not part of the model's alphabet on purpose: an impossible event (source index out
 		// of range) makes the acceptor reject the log
-		return "ESrcErr 9999", true
+		return "ESrcErr 4095", true
 	}
 	return "", false
 }
